@@ -35,7 +35,7 @@ Rounds 3-5 told the authors that a large randomized differential test of the obv
 options, state that survives calls, real-process timing, loop boundaries; rounds 5 and 5b: act through helper modules the
 property's record does not name, or through two cooperating edits in two files).
 
-Result: **all {n} are caught (exit 1 with a concrete failing input as the replay), {n} - 1 of them by the check of the
+Result: **all {n} are caught (exit 1 with a concrete failing input as the replay), {n - 1} of them by the check of the
 property they target**; the one exception is `C11-r5m2` (a coordinator spin that needs a Ctrl-C: interrupts are outside
 C11's quantifier and the change is caught by C14, which owns them). {missed} were *missed* at first by the targeted
 check; each miss led to a strengthening of the machinery (never to a loosened check), named in the last column and
